@@ -7,19 +7,19 @@ Open Scope Z_scope.
 
 (* tars/tools/tars2go/lexer/lexer.go: func isNewLine *)
 Definition tr_c16_isNewLine (b : Z) : ctl unit bool :=
-  Return (if (b =? 13) then true else (b =? 10)).
+  Return (if (b =? 10) then true else (b =? 13)).
 
 (* tars/tools/tars2go/lexer/lexer.go: func isNumber *)
 Definition tr_c16_isNumber (b : Z) : ctl unit bool :=
-  Return (if (if (48 <=? b) then (b <=? 57) else false) then true else (b =? 45)).
+  Return (if (b =? 45) then true else (if (48 <=? b) then (b <=? 57) else false)).
 
 (* tars/tools/tars2go/lexer/lexer.go: func isHexNumber *)
 Definition tr_c16_isHexNumber (b : Z) : ctl unit bool :=
-  Return (if (if (97 <=? b) then (b <=? 102) else false) then true else (if (65 <=? b) then (b <=? 70) else false)).
+  Return (if (if (65 <=? b) then (b <=? 70) else false) then true else (if (97 <=? b) then (b <=? 102) else false)).
 
 (* tars/tools/tars2go/lexer/lexer.go: func isLetter *)
 Definition tr_c16_isLetter (b : Z) : ctl unit bool :=
-  Return (if (if (if (97 <=? b) then (b <=? 122) else false) then true else (if (65 <=? b) then (b <=? 90) else false)) then true else (b =? 95)).
+  Return (if (b =? 95) then true else (if (if (65 <=? b) then (b <=? 90) else false) then true else (if (97 <=? b) then (b <=? 122) else false))).
 
 Definition k_token_DummyTypeBegin : Z := 28.
 Definition k_token_DummyTypeEnd : Z := 40.
